@@ -48,7 +48,73 @@ let kind_of = function
   | "tag" -> KTag
   | k -> failwith ("unknown job kind " ^ k)
 
+(* ---- enumeration of every schedule of a fixed API action list (thorough tier) ----
+   input: H name / cap lines / "api <action>" lines / "limit n"; output: "H name" then one line per
+   complete schedule: tokens a (next API action) i m t (step of the parked import/merge/tag job). *)
+let parse_action op args =
+  match (op, args) with
+  | "import", ks -> AImport (List.map (fun s -> n_of_int (int_of_string s)) ks)
+  | "view", [ v ] -> AView (n_of_int (int_of_string v))
+  | "read", [ v ] -> ARead (n_of_int (int_of_string v))
+  | "release", [ v ] -> ARelease (n_of_int (int_of_string v))
+  | "tagadd", _ -> ATagAdd
+  | "start", [ k ] -> AStart (kind_of k)
+  | "complete", [ k ] -> AComplete (kind_of k)
+  | _ -> failwith ("bad action " ^ op)
+
+let enumerate () =
+  let ic = open_in Sys.argv.(2) in
+  let oc = open_out Sys.argv.(3) in
+  let caps : (int * (n * n) list) list ref = ref [] in
+  let capdb (k : n) : (n * n) list = try List.assoc (int_of_n k) !caps with Not_found -> [] in
+  let api = ref [] and limit = ref 1000 and name = ref "" in
+  let flush_case () =
+    if !name <> "" then begin
+      output_string oc ("H " ^ !name ^ "\n");
+      let count = ref 0 in
+      let rec go st rest path =
+        if !count < !limit then begin
+          let jobs =
+            (match st.ijob with Some j -> [ ("i", if j.ij_phase = AtStart then AStart KImport else AComplete KImport) ] | None -> [])
+            @ (match st.mjob with Some j -> [ ("m", if j.mj_phase = AtStart then AStart KMerge else AComplete KMerge) ] | None -> [])
+            @ (match st.tjob with Some j -> [ ("t", if j.tj_phase = AtStart then AStart KTag else AComplete KTag) ] | None -> [])
+          in
+          if rest = [] && jobs = [] then begin
+            count := !count + 1;
+            output_string oc (String.concat " " (List.rev path) ^ "\n")
+          end
+          else begin
+            (match rest with
+            | a :: tl -> go (if enabled st a then step_impl capdb st a else st) tl ("a" :: path)
+            | [] -> ());
+            List.iter (fun (tok, a) -> go (step_impl capdb st a) rest (tok :: path)) jobs
+          end
+        end
+      in
+      go init (List.rev !api) [];
+      output_string oc (Printf.sprintf "# %d%s\n" !count (if !count >= !limit then " (limit)" else ""))
+    end
+  in
+  (try
+     while true do
+       let line = String.trim (input_line ic) in
+       let tok = List.filter (fun x -> x <> "") (String.split_on_char ' ' line) in
+       match tok with
+       | "H" :: nm -> flush_case (); name := String.concat " " nm; caps := []; api := []
+       | "cap" :: k :: pk ->
+           let ps = List.map (fun s -> match String.split_on_char ':' s with
+             | [ f; b ] -> (n_of_int (int_of_string f), n_of_int (int_of_string b)) | _ -> failwith "bad packet") pk in
+           caps := (int_of_string k, ps) :: !caps
+       | "api" :: op :: args -> api := parse_action op args :: !api
+       | "limit" :: [ n ] -> limit := int_of_string n
+       | _ -> ()
+     done
+   with End_of_file -> ());
+  flush_case ();
+  close_out oc
+
 let () =
+  if Sys.argv.(1) = "enum" then (enumerate (); exit 0);
   let ic = open_in Sys.argv.(1) in
   let oc = open_out Sys.argv.(2) in
   let legacy = Array.length Sys.argv > 3 && Sys.argv.(3) = "legacy" in
